@@ -43,7 +43,7 @@ struct Case {
     after: usize,
 }
 
-const FAULTS: [(&str, &str, bool); 17] = [
+const FAULTS: [(&str, &str, bool); 19] = [
     ("unknown-name", "no_such_name", false),
     ("type-mismatch", "idf(1) + idf(\"s\")", false),
     ("missing-field", "{a = 1}.b", false),
@@ -57,6 +57,8 @@ const FAULTS: [(&str, &str, bool); 17] = [
     ("static-type-mismatch-through-symbol", "1 + vstr", false),
     ("missing-field-through-symbol", "vtup.nope", false),
     ("bad-argument-count", "idf(1, 2)", false),
+    ("wrong-argument-type", "addone(\"s\")", false),
+    ("wrong-argument-type-through-symbol", "addone(vstr)", false),
     ("syntax-bad-character", "1 # 2", true),
     ("syntax-adjacent-operators", "1 + * 2", true),
     ("syntax-missing-operand", "(1 + )", true),
@@ -65,7 +67,13 @@ const FAULTS: [(&str, &str, bool); 17] = [
 
 fn gen_stmt(t: &mut Tape, i: usize, funcs: &[usize], mods: &[usize]) -> Stmt {
     let pad = |t: &mut Tape| " ".repeat(2 + 2 * t.choice(3));
-    match t.weighted(&[4, 3, 2, if funcs.is_empty() { 0 } else { 3 }, 2, 2, if funcs.is_empty() { 0 } else { 3 }, 2, 2, 2, 2, if mods.is_empty() { 0 } else { 3 }]) {
+    match t.weighted(&[4, 3, 2, if funcs.is_empty() { 0 } else { 3 }, 2, 2, if funcs.is_empty() { 0 } else { 3 }, 2, 2, 2, 2, if mods.is_empty() { 0 } else { 3 }, if funcs.is_empty() { 0 } else { 3 }]) {
+        12 => {
+            // the call is itself an argument of another call
+            let f = funcs[t.choice(funcs.len())];
+            let p = pad(t);
+            Stmt { lines: vec![format!("let q{} = idf(", i), format!("{}f{}(@SLOT0@,", p, f), format!("{}  @SLOT1@) + 0);", p)], slots: 2, defines_func: None, calls_func: Some(f), defines_mod: None, calls_mod: None }
+        }
         0 => {
             let p = pad(t);
             Stmt { lines: vec![format!("let v{} = {{", i), format!("{}a = @SLOT0@,", p), format!("{}b = [@SLOT1@,", p), format!("{}     @SLOT2@],", p), format!("{}c = \"text\",", p), "};".into()], slots: 3, defines_func: None, calls_func: None, defines_mod: None, calls_mod: None }
@@ -121,7 +129,7 @@ fn gen_stmt(t: &mut Tape, i: usize, funcs: &[usize], mods: &[usize]) -> Stmt {
     }
 }
 
-const PRELUDE: &str = "let idf = func (a) => a;\nlet vzero = 0;\nlet vstr = \"s\";\nlet vtup = {here = 1};\n";
+const PRELUDE: &str = "let idf = func (a) => a;\nlet vzero = 0;\nlet vstr = \"s\";\nlet vtup = {here = 1};\nlet addone = func (n) => n + 1;\n";
 
 struct Rendered {
     text: String,
@@ -264,6 +272,12 @@ impl C17 {
             if msg.starts_with("panic") {
                 o.verdict = Verdict::Discard("the fault makes the implementation panic (C04)".into());
                 return o;
+            }
+            if c.fault_kind.starts_with("wrong-argument-type") && !msg.contains("Type error") {
+                // without the checker the value fails inside the callee: whether that or the
+                // call is "the fault" is not for this check to decide
+                o.class("wrong-argument-reported-at-run-time");
+                continue;
             }
             let pos = positions(&msg);
             let primary = match pos.iter().find(|p| !p.2) {
